@@ -36,7 +36,8 @@ type fakeWS struct {
 	id        int
 	frames    []string // "<type>:<hex>"
 	writeErr  bool     // the next WriteMessage fails
-	writeErrKind string // f: a transport error, c: websocket.ErrCloseSent, n: net.ErrClosed, t: a timeout
+	writeErrKind string // f: a transport error, c: websocket.ErrCloseSent, n: net.ErrClosed, t: a timeout, z: as c, while the peer closes normally
+	onFailWrite  func() // kind z: run inside the failing frame write (the peer's normal closure arrives in that window)
 	closes    int
 	reads     chan readRes
 	closeH    func(code int, text string) error
@@ -101,6 +102,11 @@ func (f *fakeWS) WriteMessage(mt int, data []byte) error {
 	}
 	if fail {
 		switch f.writeErrKind {
+		case "z":
+			if f.onFailWrite != nil {
+				f.onFailWrite()
+			}
+			return websocket.ErrCloseSent
 		case "c":
 			return websocket.ErrCloseSent
 		case "n":
@@ -398,10 +404,24 @@ func runWSeq(args []string) ([]string, string) {
 					listening++
 				}
 			case "SND", "RAW":
+				endedInWrite := false
 				if cn := r.cur(); cn != nil {
 					cn.mu.Lock()
 					cn.writeErr = arg(1) != "-"
 					cn.writeErrKind = arg(1)
+					cn.onFailWrite = nil
+					if sess := c.Session(); arg(1) == "z" && listening > 0 && sess != nil && sess.Connection != nil && !sess.Connection.Closed() {
+						// the peer's normal closure reaches the reader while the frame write is failing: by the time the write
+						// returns, the connection reports Closed() and the listener has no error to show
+						conn := sess.Connection
+						cn.onFailWrite = func() {
+							endedInWrite = true
+							cn.reads <- readRes{err: &websocket.CloseError{Code: websocket.CloseNormalClosure, Text: "bye"}}
+							for i := 0; i < 2000 && !conn.Closed(); i++ {
+								time.Sleep(time.Millisecond)
+							}
+						}
+					}
 					cn.mu.Unlock()
 				}
 				var err error
@@ -414,9 +434,15 @@ func runWSeq(args []string) ([]string, string) {
 				if cn := r.cur(); cn != nil {
 					cn.mu.Lock()
 					cn.writeErr = false
+					cn.onFailWrite = nil
 					cn.mu.Unlock()
 				}
 				res = resOf(err)
+				if endedInWrite {
+					r.waitListenDone()
+					listening--
+					res += "+ended" // the failing write was reached, the listener has ended
+				}
 			case "LEND":
 				cn := r.cur()
 				if cn == nil || c.Session() == nil || listening == 0 {
@@ -465,9 +491,9 @@ func genWsOp(r *Rng) string {
 		if r.Chance(20) {
 			sz = []int{125, 126, 4095, 4096, 4097, 5000, 65535, 65536, 70000}[r.Intn(9)]
 		}
-		return fmt.Sprintf("RAW(%s;%s)", hx(r.Bytes(sz)), []string{"-", "-", "-", "-", "-", "f", "c", "n", "t"}[r.Intn(9)])
+		return fmt.Sprintf("RAW(%s;%s)", hx(r.Bytes(sz)), []string{"-", "-", "-", "-", "-", "f", "c", "n", "t", "z"}[r.Intn(10)])
 	default:
-		return fmt.Sprintf("SND(%s;%s)", genSendTokNoRaw(r), []string{"-", "-", "-", "-", "-", "f", "c", "n", "t"}[r.Intn(9)])
+		return fmt.Sprintf("SND(%s;%s)", genSendTokNoRaw(r), []string{"-", "-", "-", "-", "-", "f", "c", "n", "t", "z"}[r.Intn(10)])
 	}
 }
 
@@ -485,6 +511,11 @@ func init() {
 	suites["wsclient"] = func(o *Out, r *Rng, n int, tier string) {
 		for _, sz := range writerEdgeSizes {
 			o.emit("C17", "WSEQ", "CON(ok;ok)", fmt.Sprintf("SND(%s;-)", pfmOfSize(r, sz)), fmt.Sprintf("RAW(%s;-)", hx(r.Bytes(3))))
+		}
+		// a frame write that fails while the peer's normal closure arrives: the failure is the send's result (no stored error explains it away)
+		for k := 0; k < 4; k++ {
+			o.emit("C17", "WSEQ", "CON(ok;ok)", fmt.Sprintf("RAW(%s;-)", hx(r.Bytes(3))), fmt.Sprintf("SND(%s;z)", pfmOfSize(r, 10)), fmt.Sprintf("RAW(%s;-)", hx(r.Bytes(3))))
+			o.emit("C17", "WSEQ", "CON(ok;ok)", fmt.Sprintf("RAW(%s;z)", hx(r.Bytes(5))), "REC(ok;ok)", fmt.Sprintf("RAW(%s;-)", hx(r.Bytes(3))))
 		}
 		// the replaced session's listener ends with an error during a successful Reconnect: the new session starts clean
 		for k := 0; k < 6; k++ {
